@@ -1930,6 +1930,13 @@ impl Scanner {
             plan = Arc::new(StrictBatchSizeExec::new(plan, self.get_batch_size()));
         }
 
+        // A limit of zero asks for no rows at all. The limit node above is only added
+        // for positive limits (several operators reject a fetch of 0), so answer with
+        // an empty plan of the right schema.
+        if self.limit == Some(0) {
+            return Ok(Arc::new(EmptyExec::new(plan.schema())));
+        }
+
         let optimizer = get_physical_optimizer();
         let options = Default::default();
         for rule in optimizer.rules {
